@@ -315,7 +315,7 @@ def random_options(rng, p_present=0.6, templated=0.15, switches=False, scalar_se
             o["L"] = [random_value(rng, templated * 0.7, containers=False) for _ in range(n)]
         for k in DISPATCH_KEYS:
             if rng.random() < p_present:
-                o[k] = rng.choice(DISPATCH_VALUES) if rng.random() < 0.85 else rng.choice(["d{A}", "{B}e"])
+                o[k] = rng.choice(DISPATCH_VALUES) if rng.random() < 0.85 else rng.choice(["d{A}", "{B}e", "{A}", "{B}", "{C}"])  # (a dispatch value may be a reference: what it RESOLVES to selects)
         if rng.random() < 0.25:
             o[rng.choice(NOISE)] = rng.choice(SCALARS)
         if switches:
